@@ -26,7 +26,7 @@ from . import common, mcommon, c04
 ID = "C08"
 NEEDS_MODEL = True
 LEVEL = "exploration"
-NSPECS = {"quick": 64, "thorough": 600}
+NSPECS = {"quick": 128, "thorough": 800}
 NSEEDS = {"quick": 8, "thorough": 48}
 HERE = os.path.dirname(os.path.dirname(os.path.dirname(os.path.abspath(__file__))))
 TECHNIQUE = ("runtime monitoring under schedule perturbation: worker processes with different "
@@ -47,8 +47,8 @@ def build_corpus(tier, seed):
             items.append((s2, m, None))
     n = NSPECS[tier]
     i = 0
-    classes = ["shape", "shape", "flatten", "occupancy", "metrics", "metrics", "cascade",
-               "affine", "spacetime", "plain"]
+    classes = ["shape", "occupancy2", "flatten", "occupancy", "metrics", "double-flatten",
+               "cascade", "occupancy2", "metrics", "affine", "spacetime", "double-flatten", "plain"]
     while len(items) < n and i < 10 * n:
         rnd = random.Random("%s-%d-%d" % (ID, seed, i))
         cls = classes[i % len(classes)]
@@ -91,8 +91,7 @@ def classify(spec, problems, extents=None):
     ok = True
     for p in problems:
         if p.get("kind") == "unbound-read":
-            if not (kf.kf5_unbound_level_size(spec, p["name"]) or
-                    kf.kf7_unbound_offset(spec, p["name"])):
+            if not kf.name_kf(spec, p["name"]):
                 ok = False
         else:
             ok = False
